@@ -19,7 +19,7 @@ CHECKS = {
              "(panics inside the render closure) excluded; x86_64 cfg only",
         ref="DESIGN.md section 3 C08"),
     "C01": dict(
-        technique="reviewed-table census of Option unwraps in the API crate keyed by the producing callee; interval abstract interpretation of header fields (closures, helper summaries, conditional refinements) and value-class taint of entropy-decoded integers to panicking operations on MIR; validation-check reconstruction against a reviewed limit table; call-graph cycle (recursion) census with bound checks; backward data-flow of unwrapped iterator searches; totality of matches over decoded enumerations and ranged integers (explicit-panic arms vs what the parsers reject); must-raw struct-field taint; registry of repair guards (compare / reject / guarded-call facts); signed-index guard rule; blocking-primitive census; lock re-acquisition dataflow",
+        technique="reviewed-table census of Option unwraps in the API crate keyed by the producing callee; interval abstract interpretation of header fields (closures, helper summaries, conditional refinements) and value-class taint of entropy-decoded integers to panicking operations on MIR; validation-check reconstruction against a reviewed limit table; call-graph cycle (recursion) census with bound checks; backward data-flow of unwrapped iterator searches; totality of matches over decoded enumerations and ranged integers (explicit-panic arms vs what the parsers reject); must-raw struct-field taint; registry of repair guards (compare / reject / guarded-call facts); signed-index guard rule; blocking-primitive census; lock re-acquisition dataflow; call-graph reachability from thread-pool closures to the render-handle wait (R-POOL-WAIT)",
         text="Decides four mechanisms the property names, for every input: raw hybrid-uint values never reach checked 32-bit arithmetic, "
              "shift amounts, divisors, negation or abs() without a dominating ordering comparison (R-RAWINT: each report is a "
              "reachable panic); 55 named input limits exist as compare->error checks with the reviewed bound (R-LIMIT); running "
@@ -164,7 +164,7 @@ CHECKS = {
         note="table transcribed from the decoder and checked against ISO/IEC 18181-1 Annex on ICC encoding where the condition is explicit; intraprocedural",
         ref="DESIGN.md section 8.6"),
     "C20": dict(
-        technique="protocol-shape rules on MIR: who-may-write census, test-and-set shape, must-pass-through, guard liveness dataflow; dominance of every success publication by the Ok edge of the fallible calls before it; lock re-acquisition dataflow (R-BLOCK)",
+        technique="protocol-shape rules on MIR: who-may-write census, test-and-set shape, must-pass-through, guard liveness dataflow; dominance of every success publication by the Ok edge of the fallible calls before it; lock re-acquisition dataflow (R-BLOCK); call-graph reachability from thread-pool closures to the render-handle wait (R-POOL-WAIT)",
         text="Decides the structural safety argument of the render-handle protocol for every interleaving: exact writer/locker "
              "sets, atomic acquire, release on all paths, notify under guard, wait in re-check loop, no handle guard live across "
              "a call that can lock a handle. Does not decide that all callers receive identical pixels.",
